@@ -830,7 +830,7 @@ def correspond(ctx):
     ctx.extra_cov["source_variant_observed"] = {k: ("pinned-defect" if v else "repaired") for k, v in q.items()}
     ctx.notes.append(f"model switches observed on the source: {q}")
     ctx._q = q
-    n = ctx.scale(2200, 24000)
+    n = ctx.scale(1500, 24000)
     rng = ctx.rng
     cases = gen_cases(ctx, n, rng)
     for k in range(0, len(cases), 4000):
